@@ -166,13 +166,16 @@ def check(ctx):
                 out2 = run_op(thunk2)
                 if out != out2: ctx.fail("C15/result-depends-on-history:" + desc[0], case, "%r gave a different result after %d earlier operations" % (desc, step))
                 if desc[0] == "write":
-                    reqs.append(writeprops.write_request(tables, desc[1], desc[2], desc[3], "out.xml")); meta.append((ci, desc, out))
+                    reqs.append(writeprops.write_request(tables, desc[1], desc[2], desc[3], "out.xml"))
+                    # where the code splices text into markup unescaped (recorded findings of C05-C07) the element-level writer model does not apply
+                    unesc = writeprops.write_causes(G, tables, desc[1], out, desc[2]) & {"raw-nodeid-attribute", "quote-in-attribute", "uri-unescaped"}
+                    meta.append((ci, desc, out, bool(unesc)))
             kinds = set(h[0] for h in hist)
             ctx.record(dict(case=ci, history=[list(map(str, h)) for h in hist]), len(kinds) >= 2, sorted(kinds))
     finally:
         shutil.rmtree(work, ignore_errors=True)
     ans = vlib.run_model(reqs, shards=8)
-    for (ci, desc, out), a in zip(meta, ans):
+    for (ci, desc, out, unesc), a in zip(meta, ans):
         mo = writeprops.dec_doc(a)
         if mo[0] == "err" and mo[1] == "Unsupported": continue
         if out[0] == "ok":
@@ -181,7 +184,7 @@ def check(ctx):
         else: io_ = ["err"]
         mm = mo if mo[0] == "ok" else ["err"]
         if not (io_ == mm or (io_[0] == "ok" and mm[0] == "ok" and writeprops.same_doc(io_[1], mm[1]))):
-            ctx.disagree("out-of-domain" if io_[0] == "ill-formed" else "history-write", dict(case=ci, op=list(map(str, desc))), io_[0], mm[0])
+            ctx.disagree("out-of-domain" if (io_[0] == "ill-formed" or unesc) else "history-write", dict(case=ci, op=list(map(str, desc))), io_[0], mm[0])
     pick = [i for i in range(len(reqs)) if len(vlib.to_sx(reqs[i])) < 9000][:5]
     ctx.crosscheck = vlib.coq_crosscheck([reqs[i] for i in pick], [ans[i] for i in pick], "c15")
 
